@@ -67,6 +67,10 @@ func (h *huffmanOnly) encodeBlock(final bool, flush bool) error {
 		_, err := h.w.Write(h.buf.output[:h.buf.idx])
 		return err
 	}
+	if h.offset == 0 {
+		// nothing pending: do not open a block that would never be closed
+		return nil
+	}
 
 	bytesFreq(&h.hist, h.buffer[:h.offset])
 	h.hist.reduceCounts()
@@ -81,7 +85,7 @@ func (h *huffmanOnly) encodeBlock(final bool, flush bool) error {
 	for num < h.offset {
 		h.buf.Sync()
 		num += optimizedEncodeBytes(&h.hist, h.buffer[num:h.offset], &h.buf)
-		if num == h.offset && flush {
+		if num == h.offset && final {
 			h.buf.flushLastByte()
 		}
 		_, err := h.w.Write(h.buf.output[:h.buf.idx])
